@@ -66,7 +66,7 @@ static const int GWEIGHT[NGROUP] = { 20, 12, 15, 9, 9, 9, 10, 6, 5, 5 };
 enum { F_SVALS, F_PERM, F_ZEROLEAD, F_TRI, F_SPD, F_DIAG, NFAM };
 static const char *FNAME[NFAM] = { "svals", "perm", "zerolead", "tri", "spd", "diag" };
 
-static long ncases(int tier) { return tier ? 600000 : 50000; }
+static long ncases(int tier) { if (vh_is_tsan()) return tier ? 1500 : 120; return tier ? 600000 : 50000; }
 
 /* ------------------------------------------------------------------ generators */
 static void round_to_double(ldm *A) { size_t i; for (i = 0; i < A->r * A->c; i++) A->a[i] = (ld)(double)A->a[i]; }
@@ -1195,9 +1195,69 @@ out:
   DelMatrix(&mx); DelMatrix(&before); ldm_free(A); ldm_free(Go); ldm_free(G); ldm_free(AG); ldm_free(GA); ldm_free(AGA); ldm_free(GAG); free(sv);
 }
 
+/* ------------------------------------------------------------------ concurrent callers (third seeded wave)
+ * The routines of this property are functions of their arguments: the validation drivers call them from worker threads (MLR -> least squares
+ * -> inversion, LDA -> inversion), so a call must return its definition whatever other threads compute at the same moment.  K threads
+ * run the whole family on private, well-conditioned operands; every output must be bit-identical to the output the same call gave before
+ * the threads were started.  Runs under ASan+UBSan (1 % of the cases) and in a ThreadSanitizer stage (all its cases). */
+#include <pthread.h>
+#define CONC_NOUT 11
+typedef struct { size_t n, m; matrix *A, *T; dvector *y, *b; matrix *ref[CONC_NOUT]; int reps, bad[CONC_NOUT]; } cw_t;
+static void conc_eval(cw_t *w, matrix **out)
+{
+  size_t i, n = w->n; matrix *U, *S, *VT, *Q, *R, *ev, *aug; dvector *x, *coef, *eval; int k = 0;
+  for (i = 0; i < CONC_NOUT; i++) initMatrix(&out[i]);
+  MatrixInversion(w->A, out[k++]);
+  MatrixLUInversion(w->A, out[k++]);
+  { ResizeMatrix(out[k], 1, 1); out[k]->data[0][0] = MatrixDeterminant(w->A); k++; }
+  NewMatrix(&aug, n, n + 1); for (i = 0; i < n; i++) { size_t j; for (j = 0; j < n; j++) aug->data[i][j] = w->A->data[i][j]; aug->data[i][n] = w->b->data[i]; }
+  initDVector(&x); SolveLSE(aug, x); ResizeMatrix(out[k], x->size, 1); for (i = 0; i < x->size; i++) out[k]->data[i][0] = x->data[i]; k++; DelDVector(&x); DelMatrix(&aug);
+  initDVector(&coef); OrdinaryLeastSquares(w->T, w->y, coef); ResizeMatrix(out[k], coef->size, 1); for (i = 0; i < coef->size; i++) out[k]->data[i][0] = coef->data[i]; k++; DelDVector(&coef);
+  MatrixMoorePenrosePseudoinverse(w->T, out[k++]);
+  initMatrix(&U); initMatrix(&S); initMatrix(&VT); SVDlapack(w->T, U, S, VT); MatrixCopy(S, &out[k]); k++; DelMatrix(&U); DelMatrix(&S); DelMatrix(&VT);
+  initMatrix(&U); initMatrix(&S); initMatrix(&VT); SVD(w->T, U, S, VT); MatrixCopy(S, &out[k]); k++; DelMatrix(&U); DelMatrix(&S); DelMatrix(&VT);
+  initMatrix(&Q); initMatrix(&R); QRDecomposition(w->T, Q, R); MatrixCopy(R, &out[k]); k++; DelMatrix(&Q); DelMatrix(&R);
+  { matrix *sym; NewMatrix(&sym, n, n); for (i = 0; i < n; i++) { size_t j; for (j = 0; j < n; j++) sym->data[i][j] = w->A->data[i][j] + w->A->data[j][i]; }
+    initDVector(&eval); initMatrix(&ev); EVectEval(sym, eval, ev); ResizeMatrix(out[k], eval->size, 1); for (i = 0; i < eval->size; i++) out[k]->data[i][0] = eval->data[i]; k++; DelDVector(&eval); DelMatrix(&ev); DelMatrix(&sym); }
+  MatrixPseudoinversion(w->T, out[k++]);
+}
+static const char *CONC_FN[CONC_NOUT] = { "MatrixInversion", "MatrixLUInversion", "MatrixDeterminant", "SolveLSE", "OrdinaryLeastSquares", "MatrixMoorePenrosePseudoinverse", "SVDlapack", "SVD", "QRDecomposition", "EVectEval", "MatrixPseudoinversion" };
+static void *conc_worker(void *a)
+{
+  cw_t *w = a; int r, k; matrix *out[CONC_NOUT];
+  for (r = 0; r < w->reps; r++) {
+    conc_eval(w, out);
+    for (k = 0; k < CONC_NOUT; k++) { if (!matrix_bitequal(out[k], w->ref[k])) w->bad[k]++; DelMatrix(&out[k]); }
+  }
+  return NULL;
+}
+static void group_concurrent(vh_ctx *c)
+{
+  int K = (int)vh_int(c, 2, 6), t, k, reps = vh_is_tsan() ? 4 : 12, bad[CONC_NOUT] = { 0 }; cw_t w[6]; pthread_t th[6]; size_t i, j;
+  vh_class(c, "concurrent-callers-%d", K);
+  vh_desc(c, "group=concurrent %d threads x %d repetitions of the whole family on private well-conditioned operands", K, reps);
+  for (t = 0; t < K; t++) {
+    size_t n = (size_t)vh_int(c, 2, 7), m = n + (size_t)vh_int(c, 0, 5);      /* the determinant is a cofactor expansion: n! operations */
+    memset(&w[t], 0, sizeof w[t]); w[t].n = n; w[t].m = m; w[t].reps = reps;
+    NewMatrix(&w[t].A, n, n); NewMatrix(&w[t].T, m, n); NewDVector(&w[t].y, m); NewDVector(&w[t].b, n);
+    for (i = 0; i < n; i++) { for (j = 0; j < n; j++) w[t].A->data[i][j] = vh_gauss(c) + (i == j ? 3.0 * sqrt((double)n) : 0.0); w[t].b->data[i] = vh_gauss(c); }
+    for (i = 0; i < m; i++) { for (j = 0; j < n; j++) w[t].T->data[i][j] = vh_gauss(c) + (i == j ? 3.0 : 0.0); w[t].y->data[i] = vh_gauss(c); }
+    conc_eval(&w[t], w[t].ref);
+  }
+  for (t = 0; t < K; t++) pthread_create(&th[t], NULL, conc_worker, &w[t]);
+  for (t = 0; t < K; t++) pthread_join(th[t], NULL);
+  for (t = 0; t < K; t++) {
+    for (k = 0; k < CONC_NOUT; k++) { bad[k] += w[t].bad[k]; DelMatrix(&w[t].ref[k]); }
+    DelMatrix(&w[t].A); DelMatrix(&w[t].T); DelDVector(&w[t].y); DelDVector(&w[t].b);
+  }
+  vh_obs("concurrent_caller_cases", 1); vh_obs("concurrent_calls", (double)K * reps * CONC_NOUT);
+  for (k = 0; k < CONC_NOUT; k++) if (bad[k]) { char key[96]; snprintf(key, sizeof key, "%s|result-depends-on-concurrent-callers", CONC_FN[k]); vh_fail(c, key, "%d of %d concurrent calls returned another result than the same call made alone", bad[k], K * reps); }
+}
+
 static void run_case(vh_ctx *c)
 {
   long w = vh_int(c, 0, 99), acc = 0;
+  if (vh_is_tsan() || c->idx % 100 == 57) { group_concurrent(c); return; }
   int g;
   for (g = 0; g < NGROUP; g++) { acc += GWEIGHT[g]; if (w < acc) break; }
   if (g >= NGROUP) g = NGROUP - 1;
